@@ -6,19 +6,35 @@ HERE = os.path.dirname(os.path.abspath(__file__))
 sys.path.insert(0, HERE)
 import extract
 
-def consts_block():
+def consts_block(P='FQ'):
     """R5: lazy_static moduli as constants with the literals of the current source"""
     sys.path.insert(0, os.path.join(HERE, '..', 'mirvc'))
     import consts
     K = consts.parse_consts(os.environ.get('SM9_REPO', '/repo'))
     def arr(n):
         return '[' + ', '.join('0x%016X' % ((n >> (64 * i)) & 0xFFFFFFFFFFFFFFFF) for i in range(4)) + ']'
-    L = [(K['FQ'] >> (64 * i)) & 0xFFFFFFFFFFFFFFFF for i in range(4)]
-    return ('verus! {\npub const FQ_C: [u64; 4] = %s;\npub const FQ_INV_C: u64 = 0x%016X;\n' % (arr(K['FQ']), K['FQ_INV']) +
+    q = K[P]
+    R_ = 1 << 256
+    rinv = pow(R_, -1, q) if q % 2 == 1 else 0
+    extra = ('pub const FQ_SQUARED_C: [u64; 4] = %s;\npub const FQ_ONE_C: [u64; 4] = %s;\n' % (arr(K[P + '_SQUARED']), arr(K[P + '_ONE'])) +
+             'pub open spec fn RINV() -> nat { 0x%Xnat }\npub open spec fn QLIT() -> nat { 0x%Xnat }\n' % (rinv, q) +
+             'pub proof fn lemma_rinv_gen()\n    ensures (0x1_0000_0000_0000_0000_0000_0000_0000_0000_0000_0000_0000_0000_0000_0000_0000_0000nat * RINV()) %% QLIT() == 1, RINV() < QLIT(),\n{\n'
+             '    assert((0x1_0000_0000_0000_0000_0000_0000_0000_0000_0000_0000_0000_0000_0000_0000_0000_0000nat * 0x%Xnat) %% 0x%Xnat == 1) by(compute_only);\n}\n' % (rinv, q) +
+             'pub open spec fn R2LIT() -> nat { 0x%Xnat }\npub open spec fn ONELIT() -> nat { 0x%Xnat }\n' % (K[P + '_SQUARED'], K[P + '_ONE']) +
+             'pub proof fn lemma_r2_gen()\n    ensures R2LIT() == (0x1_0000_0000_0000_0000_0000_0000_0000_0000_0000_0000_0000_0000_0000_0000_0000_0000nat * 0x1_0000_0000_0000_0000_0000_0000_0000_0000_0000_0000_0000_0000_0000_0000_0000_0000nat) %% QLIT(),\n'
+             '            ONELIT() == 0x1_0000_0000_0000_0000_0000_0000_0000_0000_0000_0000_0000_0000_0000_0000_0000_0000nat %% QLIT(),\n{\n'
+             '    assert(0x%Xnat == (0x1_0000_0000_0000_0000_0000_0000_0000_0000_0000_0000_0000_0000_0000_0000_0000_0000nat * 0x1_0000_0000_0000_0000_0000_0000_0000_0000_0000_0000_0000_0000_0000_0000_0000_0000nat) %% 0x%Xnat) by(compute_only);\n'
+             '    assert(0x%Xnat == 0x1_0000_0000_0000_0000_0000_0000_0000_0000_0000_0000_0000_0000_0000_0000_0000_0000nat %% 0x%Xnat) by(compute_only);\n}\n' % (K[P + '_SQUARED'], q, K[P + '_ONE'], q) +
+             'pub proof fn lemma_lits_gen()\n    ensures FQ_SQUARED_C@.len() == 4, FQ_ONE_C@.len() == 4, ' +
+             ', '.join('FQ_SQUARED_C@[%d] == 0x%016Xu64' % (i, (K[P + '_SQUARED'] >> (64 * i)) & 0xFFFFFFFFFFFFFFFF) for i in range(4)) + ', ' +
+             ', '.join('FQ_ONE_C@[%d] == 0x%016Xu64' % (i, (K[P + '_ONE'] >> (64 * i)) & 0xFFFFFFFFFFFFFFFF) for i in range(4)) + ',\n{\n}\n')
+    L = [(K[P] >> (64 * i)) & 0xFFFFFFFFFFFFFFFF for i in range(4)]
+    text = ('verus! {\npub const FQ_C: [u64; 4] = %s;\npub const FQ_INV_C: u64 = 0x%016X;\n' % (arr(K[P]), K[P + '_INV']) +
             'pub proof fn lemma_consts_gen()\n    ensures FQ_C@[0] == 0x%016Xu64, FQ_C@[1] == 0x%016Xu64, FQ_C@[2] == 0x%016Xu64, FQ_C@[3] == 0x%016Xu64, FQ_C@.len() == 4,\n'
             '            (0x%016Xnat * 0x%016Xnat + 1) %% 0x1_0000_0000_0000_0000nat == 0,\n{\n'
-            '    assert((0x%016Xnat * 0x%016Xnat + 1) %% 0x1_0000_0000_0000_0000nat == 0) by(compute_only);\n}\n}\n'
-            % (L[0], L[1], L[2], L[3], L[0], K['FQ_INV'], L[0], K['FQ_INV']))
+            '    assert((0x%016Xnat * 0x%016Xnat + 1) %% 0x1_0000_0000_0000_0000nat == 0) by(compute_only);\n}\n'
+            % (L[0], L[1], L[2], L[3], L[0], K[P + '_INV'], L[0], K[P + '_INV']) + extra + '}\n')
+    return text.replace('FQ_', P + '_')
 
 UNITS = {
     # unit -> (annotated file, [(function marker, header regex in the expanded text, rewriter)])
@@ -29,9 +45,38 @@ UNITS = {
                        ('mac', r'pub const fn mac\(', extract.rewrite_arith),
                        ('add_carry', r'pub\(crate\) fn add_carry\(', extract.rewrite_while),
                        ('sum_of_products', r'pub\(crate\) fn sum_of_products<const T\s*:\s*usize>', extract.rewrite_sop)]),
+    'fp': ('fp.rs', [('u256_is_zero', r'pub fn is_zero\(&self\) -> bool \{ self\.0\.is_zero\(\) \}', extract.rewrite_fp),
+                     ('u256_add', r'pub fn add\(&mut self, other: &U256, modulo: &U256\)', extract.rewrite_fp),
+                     ('u256_sub', r'pub fn sub\(&mut self, other: &U256, modulo: &U256\)', extract.rewrite_fp),
+                     ('u256_neg', r'pub fn neg\(&mut self, modulo: &U256\)', extract.rewrite_fp),
+                     ('u256_mul2', r'pub fn mul2\(&mut self, modulo: &U256\)', extract.rewrite_fp),
+                     ('fq_into_u256', r'fn from\(mut a: Fq\) -> Self', extract.rewrite_fp),
+                     ('fq_new', r'pub fn new\(mut a: U256\) -> Option<Self> \{\s*if a < \*FQ', extract.rewrite_fp),
+                     ('fq_new_mul_factor', r'pub fn new_mul_factor\(mut a: U256\) -> Self \{\s*a\.mul\(&FQ_SQUARED', extract.rewrite_fp),
+                     ('fq_add_inplace', r'pub fn add_inplace\(&self, other: &Fq\) -> Fq', extract.rewrite_fp),
+                     ('fq_sub_inplace', r'pub fn sub_inplace\(&self, other: &Fq\) -> Fq', extract.rewrite_fp),
+                     ('fq_mul_inplace', r'pub fn mul_inplace\(&self, other: &Fq\) -> Fq', extract.rewrite_fp),
+                     ('fq_squared', r'fn squared\(&self\) -> Self \{\s*let mut a = self\.0;\s*a\.square\(&FQ,', extract.rewrite_fp),
+                     ('fq_neg_inplace', r'pub fn neg_inplace\(&self\) -> Fq \{\s*let mut a = self\.0;\s*a\.neg\(&FQ\)', extract.rewrite_fp),
+                     ('fq_double', r'fn double\(&self\) -> Self \{\s*let mut a = self\.0;\s*a\.mul2\(&FQ\)', extract.rewrite_fp)]),
 }
 
-DEPENDS = {'sop': ['mul']}
+UNITS['square'] = ('square.rs', [('square', r'pub fn square\(&mut self, modulo: &U256, inv: u64\)', extract.rewrite_square)])
+_FR = [('u256_is_zero', None), ('u256_add', None), ('u256_sub', None), ('u256_neg', None), ('u256_mul2', None),
+       ('fq_into_u256', r'fn from\(mut a: Fr\) -> Self'),
+       ('fq_new', r'pub fn new\(mut a: U256\) -> Option<Self> \{\s*if a < \*FR'),
+       ('fq_new_mul_factor', r'pub fn new_mul_factor\(mut a: U256\) -> Self \{\s*a\.mul\(&FR_SQUARED'),
+       ('fq_add_inplace', r'pub fn add_inplace\(&self, other: &Fr\) -> Fr'),
+       ('fq_sub_inplace', r'pub fn sub_inplace\(&self, other: &Fr\) -> Fr'),
+       ('fq_mul_inplace', r'pub fn mul_inplace\(&self, other: &Fr\) -> Fr'),
+       ('fq_squared', r'fn squared\(&self\) -> Self \{\s*let mut a = self\.0;\s*a\.square\(&FR,'),
+       ('fq_neg_inplace', r'pub fn neg_inplace\(&self\) -> Fr \{\s*let mut a = self\.0;\s*a\.neg\(&FR\)'),
+       ('fq_double', r'fn double\(&self\) -> Self \{\s*let mut a = self\.0;\s*a\.mul2\(&FR\)')]
+# 'fpr': the Fr instance of the field_impl! macro: the same annotation text with Fq -> Fr / FQ -> FR and the constants of r
+UNITS['fpr'] = ('fp.rs', [(m, h or dict((a, b) for a, b, _ in UNITS['fp'][1])[m], extract.rewrite_fp) for m, h in _FR])
+VARIANT = {'fpr': dict(subst=[('Fq', 'Fr'), ('FQ', 'FR'), ('fqv', 'frv')], drop=['sum_of_products'], drop_fns=[r'(?:pub )?fn witness_sop_precondition\('], prefix='FR')}
+
+DEPENDS = {'square': ['mul'], 'sop': ['mul'], 'fp': ['mul', 'square', 'sop'], 'fpr': ['mul', 'square', 'sop']}
 
 def erase(annot_text, marker):
     """the executable lines of the region //@BEGIN marker .. //@END (annotation-only lines end with //@)"""
@@ -67,6 +112,17 @@ def run_unit(unit, expanded_text, workdir):
         dfile, dfns = UNITS[dep]
         annot = open(os.path.join(HERE, 'annot', dfile)).read() + annot
         fns = list(dfns) + list(fns)
+    var = VARIANT.get(unit)
+    if var:
+        for marker in var['drop']:
+            annot = re.sub(r'^//@BEGIN %s\n.*?^//@END\n' % re.escape(marker), '', annot, flags=re.S | re.M)
+            fns = [f for f in fns if f[0] != marker]
+        for hdr in var.get('drop_fns', []):
+            t = extract.find_fn(annot, hdr)
+            if t:
+                annot = annot.replace(t, '')
+        for a, b in var['subst']:
+            annot = annot.replace(a, b)
     notes = []
     erasure = 'identical'
     for marker, header, rewriter in fns:
@@ -138,7 +194,7 @@ def run_unit(unit, expanded_text, workdir):
                 return dict(status='undecided', detail='re-attached annotation of %s does not erase to the current code' % marker, erasure='conflict', seconds=0, verified=0, errors=[], notes=notes)
     prelude = open(os.path.join(HERE, 'annot', 'prelude.rs')).read()
     full = os.path.join(workdir, unit + '_full.rs')
-    open(full, 'w').write(prelude + consts_block() + annot + '\nfn main() {}\n')
+    open(full, 'w').write(prelude + consts_block(var['prefix'] if var else 'FQ') + annot + '\nfn main() {}\n')
     t0 = time.time()
     p = subprocess.run(['verus', full, '--output-json', '--time', '--rlimit', '60'], capture_output=True, text=True, timeout=1200)
     secs = time.time() - t0
